@@ -40,6 +40,9 @@ def build(case):
             hdr += b'; client_no_context_takeover'
         if case.get('snct'):
             hdr += b'; server_no_context_takeover'
+        if case.get('cbits'):
+            # (a legal, if unusual, spelling: blanks around '=')
+            hdr += b'; client_max_window_bits = %d' % case['cbits']
         extra = [hdr]
         ws = {'compress': True}
     steps = S.handshake_steps(extra)
@@ -75,6 +78,8 @@ def build(case):
           'schedule': case.get('schedule') or {'kind': 'preempt', 'points': []},
           'start_at': {'name': 'ready'},
           'max_steps': case.get('max_steps', 30000)}
+    if case.get('mask_keys'):
+        sc['mask'] = list(case['mask_keys'])
     if case.get('stall'):
         sc['stall'] = case['stall']
     if case.get('via_proxy'):
